@@ -97,13 +97,17 @@ var hc07AccountPats = []string{"", "acc.*", "Acc1", ".*[13579]"}
 
 // hc07Decide: real Check against the reference for nEntries entries of nItems items each; the wallet and
 // account names are symbolic strings (lengths chosen), every item is symbolic over the spelling table.
-func hc07Decide(nEntries, nItems int) {
+func hc07Decide(nEntries, nItems int, history bool) {
 	ctx := context.Background()
 	var entries []hc07Entry
 	var perms []*checker.Permissions
 	for e := 0; e < nEntries; e++ {
-		ent := hc07Entry{wallet: hc07WalletPats[vsym.Choose(fmt.Sprintf("wpat%d", e), len(hc07WalletPats))],
-			account: hc07AccountPats[vsym.Choose(fmt.Sprintf("apat%d", e), len(hc07AccountPats))]}
+		nw, na := len(hc07WalletPats), len(hc07AccountPats)
+		if history {
+			nw, na = 2, 2
+		}
+		ent := hc07Entry{wallet: hc07WalletPats[vsym.Choose(fmt.Sprintf("wpat%d", e), nw)],
+			account: hc07AccountPats[vsym.Choose(fmt.Sprintf("apat%d", e), na)]}
 		for j := 0; j < nItems; j++ {
 			ent.items = append(ent.items, vsym.OneOf(fmt.Sprintf("item%d_%d", e, j), hc07Items...))
 		}
@@ -118,8 +122,15 @@ func hc07Decide(nEntries, nItems int) {
 	if err != nil {
 		vsym.Assume(false)
 	}
-	wallet := vsym.String("w", []int{7, 5}[vsym.Choose("wlen", 2)])
-	account := vsym.String("a", []int{4, 1}[vsym.Choose("alen", 2)])
+	var wallet, account string
+	if history {
+		// concrete names (the names are the subject of the other Decide harnesses)
+		wallet = "Wallet1"
+		account = []string{"acc1", "x"}[vsym.Choose("aname", 2)]
+	} else {
+		wallet = vsym.String("w", []int{7, 5}[vsym.Choose("wlen", 2)])
+		account = vsym.String("a", []int{4, 1}[vsym.Choose("alen", 2)])
+	}
 	// names do not contain the path separator
 	for k := 0; k < len(wallet); k++ {
 		vsym.Assume(wallet[k] != '/')
@@ -128,6 +139,13 @@ func hc07Decide(nEntries, nItems int) {
 		vsym.Assume(account[k] != '/')
 	}
 	vsym.FindingClass("F2-top-level-alternation", hc07UsesAlternation(entries))
+	if history {
+		// an earlier request of the same client for the same account and another (or the same)
+		// operation: the decision must not depend on what was asked before
+		prior := []string{"Access account", "Sign", hc07Op}[vsym.Choose("prior-op", 3)]
+		svc.Check(ctx, &checker.Credentials{Client: "client1"}, wallet+"/"+account, prior)
+		vsym.Reach("asked-before")
+	}
 	got := svc.Check(ctx, &checker.Credentials{Client: "client1"}, wallet+"/"+account, hc07Op)
 	want := hc07Reference(entries, wallet, account)
 	vsym.Out("got", got)
@@ -148,10 +166,13 @@ func hc07UsesAlternation(entries []hc07Entry) bool {
 	return false
 }
 
-func HC07Decide1x1() { hc07Decide(1, 1) }
-func HC07Decide1x3() { hc07Decide(1, 3) }
-func HC07Decide2x2() { hc07Decide(2, 2) }
-func HC07Decide3x3() { hc07Decide(3, 3) }
+func HC07Decide1x1() { hc07Decide(1, 1, false) }
+func HC07Decide1x3() { hc07Decide(1, 3, false) }
+func HC07Decide2x2() { hc07Decide(2, 2, false) }
+func HC07Decide3x3() { hc07Decide(3, 3, false) }
+
+// HC07DecideHistory: the same after an earlier request on the same service.
+func HC07DecideHistory() { hc07Decide(2, 2, true) }
 
 // HC07Identity: unknown client, missing identity, nil credentials and malformed account paths are refused.
 func HC07Identity() {
